@@ -17,7 +17,7 @@ rust2coq.py.  AST nodes are tuples whose 2nd component is always the source line
     ('struct', ln, path-node, [(field, expr)])     (shorthand `Self { key }` gives (key, path key))
     ('closure', ln, [param names], body)           ('macro', ln, name, [args])   (args parsed as exprs)
     ('return', ln, e|None)       ('for', ln, pattern, iter-expr, block)          ('tuple', ln, [es])
-    ('tfield', ln, e, index)     ('match', ln, scrutinee, [(pattern, arm-expr)])    ('range', ln, lo, hi)     ('break', ln)   ('continue', ln)
+    ('tfield', ln, e, index)     ('match', ln, scrutinee, [(pattern, arm-expr[, guard])])   ('index', ln, e, i)    ('range', ln, lo, hi)     ('break', ln)   ('continue', ln)
   patterns (only what `if let` / `for` / `let` need)
     ('pbind', ln, name, is_mut)  ('ptuplestruct', ln, path-node, [patterns])     ('pwild', ln)    ('ptuple', ln, [patterns])
     ('pref', ln, pattern)   ('pstruct', ln, path-node, [(field, pattern)], has_rest)   ('ppath', ln, path-node)  (e.g. `None`)
@@ -311,7 +311,7 @@ class Parser:
                     if not self.accept(","): break
                 self.expect("}")
                 return ("pstruct", x.line, p, fields, rest)
-            if len(p[2]) == 1 and isinstance(p[2][0], str) and p[2][0][0].islower():
+            if len(p[2]) == 1 and isinstance(p[2][0], str) and (p[2][0][0].islower() or p[2][0][0] == "_"):
                 return ("pbind", x.line, p[2][0], False)
             if all(isinstance(q, str) for q in p[2]):
                 return ("ppath", x.line, p)
@@ -358,7 +358,9 @@ class Parser:
                 params.append(closure_param(p))
                 if not self.accept(","): break
             self.expect("|")
-        if self.at("->"): self.lost("closure return type annotation is outside the subset")
+        if self.at("->"):
+            self.next(); self.parse_type()
+            if not self.at("{"): self.lost("closure with a return type needs a block body")
         return ("closure", x.line, params, self.expr(ns))
 
     def _range(self, ns):
@@ -432,7 +434,8 @@ class Parser:
             elif self.at("("):
                 e = ("call", x.line, e, self._args(")"))
             elif self.at("["):
-                self.lost("index expressions are outside the subset")
+                self.next(); i = self.expr(); self.expect("]")
+                e = ("index", x.line, e, i)
             else:
                 return e
 
@@ -560,11 +563,13 @@ class Parser:
         while not self.at("}"):
             if self.at("#"): self.lost("attributes on match arms are outside the subset")
             pat = self.pattern()
-            if self.at("|") or self.at("if"): self.lost("or-patterns / match guards are outside the subset")
+            if self.at("|"): self.lost("or-patterns are outside the subset")
+            guard = None
+            if self.accept("if"): guard = self.expr()
             self.expect("=>")
             blocklike = self.at("{")
             body = self.expr()
-            arms.append((pat, body))
+            arms.append((pat, body) if guard is None else (pat, body, guard))
             if not self.accept(","):
                 if not (blocklike or self.at("}")): self.lost("expected `,` after match arm")
         self.expect("}")
